@@ -47,7 +47,10 @@ class ConcreteCtx:
         if not cond:
             raise Skip("assumption does not hold for these inputs")
 
-    def check(self, label, cond, msg=""):
+    def record(self, name, value):
+        pass
+
+    def check(self, label, cond, msg="", decided_by_solver=False):
         self.checked.append(label)
         if not cond:
             self.failures.append(label)
